@@ -18,6 +18,8 @@ var Plans = map[string][]PlanItem{
 	"C17": {{Scen: "tree", Quick: 3000, Thorough: 200000}},
 	"C12": {{Scen: "persist-fault", Quick: 160, Thorough: 12000}},
 	"C19": {{Scen: "read-fault", Quick: 240, Thorough: 16000}},
+	"C09": {{Scen: "concurrent", Quick: 4000, Thorough: 300000}},
+	"C14": {{Scen: "build-history", Quick: 2500, Thorough: 150000}},
 	"C11": {{Scen: "world", Quick: 3000, Thorough: 150000}},
 	"C16": {{Scen: "world", Quick: 4000, Thorough: 250000}},
 }
@@ -37,7 +39,10 @@ func LevelOf(prop string) string {
 
 // RacePlans: cases additionally executed by the -race build of the same
 // engine (baton invisible to the detector, see baton_pipe.go).
-var RacePlans = map[string][]PlanItem{}
+var RacePlans = map[string][]PlanItem{
+	"C09": {{Scen: "concurrent", Quick: 800, Thorough: 50000}},
+	"C14": {{Scen: "build-history", Quick: 500, Thorough: 25000}},
+}
 
 // PlanFor returns the plan of a property for the normal or the race build.
 func PlanFor(prop string, race bool) []PlanItem {
